@@ -20,12 +20,13 @@
    [excess_equivocation = false]: the equivocating weight is within total - threshold (outside it
    the verdict of the code depends on the precommit order: C19_order_excess_refuted, finding
    commit-order-dependent-under-excess-equivocation); the GHOST descent of the model is not
-   ambiguous ([validate_commit = VOk _]; ambiguity needs excess equivocation too, but that
-   implication is not proved).  Block-number width: the repaired code only compares numbers and
+   ambiguous ([validate_commit = VOk _]), which is PROVED for every voter set made by NewVoterSet
+   within the equivocation bound (C19_verdict_total), so C19_accept_iff_new_voter_set and
+   C19_order_free_new_voter_set carry no such side condition.  Block-number width: the repaired code only compares numbers and
    adds a depth to the base number, the model has no width parameter; the pinned tree's
    width-dependent comparator is kept as [validate_commit_prefix w] (C19_width_prefix_refuted). *)
 From Coq Require Import List NArith ZArith Bool Permutation.
-From C19 Require Import Model ProofsVoterSet ProofsChain ProofsCommit ProofsIff ProofsJust ProofsOrder ProofsMain.
+From C19 Require Import Model ProofsVoterSet ProofsChain ProofsCommit ProofsIff ProofsJust ProofsOrder ProofsNoAmb ProofsMain.
 Import ListNotations.
 Local Open Scope N_scope.
 
@@ -155,6 +156,39 @@ Theorem C19_order_free : forall vs hs num fhash fnum thash tnum ps ps' r r',
       verify_finalizes vs hs fhash fnum thash tnum ps' = JOk).
 Proof. exact verify_finalizes_order_free. Qed.
 Print Assumptions C19_order_free.
+
+(* THE PROPERTY for voter sets made by NewVoterSet from any weight list (repeated ids summed):
+   accepted iff valid, and independent of the precommit order; the only side conditions are the
+   consistent numbering and the equivocation bound of the recorded finding (the descent of the
+   model is proved unambiguous there: C19_verdict_total) *)
+Theorem C19_accept_iff_new_voter_set : forall ws vs hs num fhash fnum thash tnum ps,
+  new_voter_set ws = Some vs ->
+  (forall x, In x hs -> num (h_hash x) = num (h_parent x) + 1) ->
+  (forall p, In p ps -> p_num p = num (p_hash p)) ->
+  excess_equivocation vs ps = false ->
+  (verify_finalizes vs hs fhash fnum thash tnum ps = JOk <->
+   justification_valid_spec vs hs fhash fnum thash tnum ps = true).
+Proof. exact accept_iff_new_voter_set. Qed.
+Print Assumptions C19_accept_iff_new_voter_set.
+
+Theorem C19_order_free_new_voter_set : forall ws vs hs num fhash fnum thash tnum ps ps',
+  new_voter_set ws = Some vs ->
+  (forall x, In x hs -> num (h_hash x) = num (h_parent x) + 1) ->
+  (forall p, In p ps -> p_num p = num (p_hash p)) ->
+  excess_equivocation vs ps = false ->
+  Permutation ps ps' ->
+  (verify_finalizes vs hs fhash fnum thash tnum ps = JOk <->
+   verify_finalizes vs hs fhash fnum thash tnum ps' = JOk).
+Proof. exact order_free_new_voter_set. Qed.
+Print Assumptions C19_order_free_new_voter_set.
+
+Theorem C19_verdict_total : forall vs hs num thash tnum ps,
+  (forall x, In x hs -> num (h_hash x) = num (h_parent x) + 1) ->
+  2 * vs_total vs < 3 * vs_threshold vs -> weights_bounded vs ->
+  excess_equivocation vs ps = false ->
+  exists r, validate_commit vs hs thash tnum ps = VOk r.
+Proof. exact validate_commit_total. Qed.
+Print Assumptions C19_verdict_total.
 
 (* every voter set made by NewVoterSet satisfies the sanity hypothesis above *)
 Theorem C19_voter_set_sane : forall ws vs,
